@@ -4,6 +4,10 @@ import json, os, subprocess
 ROOT = os.path.dirname(os.path.dirname(os.path.abspath(__file__)))
 
 CHECKS = {
+    "C20": dict(level="model_checking", design="DESIGN.md section 5 C20",
+                technique="denotational TLA+ model of the combinators (PC.tla); TLC validates the results of the real combinators built from the same terms",
+                text="The harness builds the REAL rusty_pc combinator for each abstract term (7 leaves that succeed / fail softly / fail fatally, consuming or not; 18 unary, 8 binary, 2 ternary combinators; a fixed closure table) and runs it on all 121 inputs over {a,b,c} up to length 4. TLC evaluates PC.tla - written from the documentation and the contract of C20 - on the same terms and inputs and compares result class, value, error code and position, and checks on the model that a soft failure under an undoing combinator keeps the position and that success never moves it backwards. Terms: depth 1 complete, depth 2 (unary over depth 1, binary over depth-1 x leaf) complete in thorough, seeded depth 3-5 samples.",
+                note="Trusted: harness term builder (pcterm.rs), TLC. Terms that repeat a non-consuming success are excluded (the library does not terminate on them by design). Outputs flattened to strings."),
     "C17": dict(level="model_checking", design="DESIGN.md section 5 C17",
                 technique="TLC model checking of the defining equations on Strings.tla + TLC validation of recorded built-in results against the definitions",
                 text="D: TLC checks the laws (LEFT$+MID$ split, clamping, INSTR least position, LEN additivity, UCASE$/LCASE$ touch only letters, trims remove exactly blanks, SPACE$ = STRING$(n,32), VAL(STR$(k)) = k, errors for negative counts / non-positive starts) on every string up to length 3 (5) over {a, B, blank, CHR$(200)} and all counts in -1..7. V: the same argument space through real BASIC programs with arguments rendered as literals, variables and nested calls; every result or error code is a record validated by TLC against the DEFINITIONS in Strings.tla.",
